@@ -36,6 +36,11 @@ impl Toi {
     pub fn get(&self) -> u128 {
         self.value
     }
+
+    /// Check that this TOI has been allocated by `allocator`
+    pub(crate) fn is_allocated_by(&self, allocator: &Arc<ToiAllocator>) -> bool {
+        Arc::ptr_eq(&self.allocator, allocator)
+    }
 }
 
 impl ToiAllocatorInternal {
